@@ -31,7 +31,9 @@ import (
 
 // Quantum is the virtual-time unit of the alphabet. The controller's own 1 s state
 // evaluation ticker is started at bubble time 0; every harness action happens at
-// 0.5 s + k*Quantum, so a tick never coincides with a harness action or a timer.
+// 0.5 s + k*Quantum (a step that consumes a fraction of a quantum is padded to the next
+// boundary), so a tick never coincides with a harness action or a timer. Grace periods are
+// off the grid (GraceDur) so that sleepers never wake at an instant at which a timer fires.
 const Quantum = time.Second
 
 // Unit is the resolution in which durations are reported to the specification.
@@ -184,12 +186,19 @@ type FSystem struct {
 	MaxDepth int // exploration bound (0 = until closed)
 }
 
+// GraceDur is the configured grace period: Grace quanta plus 10%, so that a goroutine that sleeps
+// through it never wakes at an instant at which a timer fires (the runtime runs same-instant
+// events in random order, which would make the extracted tables non-deterministic).
+func (s *FSystem) GraceDur() time.Duration {
+	return time.Duration(s.Grace)*Quantum + time.Duration(s.Grace)*Quantum/10
+}
+
 func (s *FSystem) Name() string { return s.name }
 func (s *FSystem) Config() map[string]any {
 	// the contract sees times in milliseconds (so that any delay the code might use is representable);
 	// the *_q fields are the same delays in quanta, from which a replay rebuilds the system
 	ms := int(Quantum / Unit)
-	return map[string]any{"impl": s.name, "orig": s.Orig, "delay": s.Delay * ms, "fbdelay": s.FbDelay * ms, "grace": s.Grace * ms,
+	return map[string]any{"impl": s.name, "orig": s.Orig, "delay": s.Delay * ms, "fbdelay": s.FbDelay * ms, "grace": int(s.GraceDur() / Unit),
 		"delay_q": s.Delay, "fbdelay_q": s.FbDelay, "grace_q": s.Grace,
 		"failback": s.Failback, "failth": s.FailTh, "recth": s.RecTh, "gated": s.Gated, "nsubs": 0}
 }
@@ -222,7 +231,7 @@ func (s *FSystem) New() core.Instance {
 	hc := ha.HealthConfig{CheckInterval: 24 * time.Hour, Timeout: 3 * time.Second, FailureThreshold: s.FailTh, RecoveryThreshold: s.RecTh}
 	in.m = ha.NewHealthMonitor(hc, &ha.PartnerInfo{NodeID: "partner", Endpoint: in.host}, zap.NewNop())
 	fc := ha.FailoverConfig{Enabled: true, FailoverDelay: time.Duration(s.Delay) * Quantum, FailbackDelay: time.Duration(s.FbDelay) * Quantum,
-		FailbackEnabled: s.Failback, GracePeriod: time.Duration(s.Grace) * Quantum}
+		FailbackEnabled: s.Failback, GracePeriod: s.GraceDur()}
 	in.c = ha.NewFailoverController(fc, "node", ha.Role(s.Orig), 1, in.m, zap.NewNop())
 	in.c.SetRoleChangeCallback(func(r ha.Role) error {
 		ok := in.cbOK
@@ -348,6 +357,12 @@ func (in *inst) Apply(ev core.Event) map[string]any {
 		time.Sleep(time.Duration(q) * Quantum)
 		dt = q
 	case "force_failover":
+		if in.s.Grace > 0 {
+			// the operator's command never falls on the very instant at which a timer goroutine started
+			// its grace period: both would wake at the same instant, in an order the runtime randomises
+			time.Sleep(time.Millisecond)
+			in.settle()
+		}
 		in.setCaller(goid())
 		acc = in.c.ForceFailover("operator") == nil
 		in.setCaller(0)
@@ -378,7 +393,12 @@ func (in *inst) Apply(ev core.Event) map[string]any {
 		panic("unknown op " + op)
 	}
 	in.settle()
-	// the step lasts as long as the call took in virtual time (ForceFailover may sit out the grace period)
+	// the step lasts as long as the call took in virtual time (ForceFailover may sit out the grace
+	// period); the harness then waits for the next quantum boundary so that its actions stay on the grid
+	if r := time.Since(start) % Quantum; r != 0 {
+		time.Sleep(Quantum - r)
+		in.settle()
+	}
 	d := time.Since(start)
 	if d%Unit != 0 || (op == "adv" && d != time.Duration(q)*Quantum) {
 		harnessFail(fmt.Sprintf("%s: step %s took %v of virtual time (requested %d quanta)", in.s.name, op, d, dt))
@@ -487,7 +507,7 @@ func (in *inst) Close() {
 	synctest.Wait()
 	in.c.Stop()
 	// let grace-period sleepers and timers that already fired run to completion
-	time.Sleep(time.Duration(in.s.Grace+in.s.Delay+in.s.FbDelay+2) * Quantum)
+	time.Sleep(time.Duration(2*in.s.Grace+in.s.Delay+in.s.FbDelay+2) * Quantum)
 	synctest.Wait()
 	gated.Delete(in.c)
 	partnerUp.Delete(in.host)
